@@ -282,6 +282,16 @@ def c15_obligations(tier, seed):
          "query_cap_s": 120, "cap_s": (600, 600), "stubs": [], "role": "bulk_versions", "instantiation": None,
          "assumes": ["HashMap get / insert / into_iter semantics are std's", "Transaction::get_users_states applies the pending pick (C15.pending_pick) per user: not decided",
                      "counterexamples are confirmed by native_bulk (real StorageManager over the in-memory database, in-transaction answer vs. answer after commit)"]},
+        {"id": "C15.user_state_wiring", "engine": "mir", "kind": "bulkwiring",
+         "claim": "StorageManager::get_user_state (async body) and Transaction::get_users_states, walked on their MIR, compose their ingredients as C15.read_in_tx / C15.bulk_read_in_tx assume: database first (errors other than "
+                  "NotFound returned as is), transaction log exactly when a transaction is open and for the same user and flag, compare_db_and_transaction_records(database record's epoch, pending record, flag) arbitrates and its "
+                  "choice (or the database's record) is what is returned, only-pending / only-database / neither give the pending record / the database's record / NotFound, only a clone of the database's record is ever cached; "
+                  "get_users_states applies find_appropriate_item to each user's pending states with the caller's flag and inserts the pick under that user",
+         "functions": [MG + "::get_user_state", TX + "::get_users_states"], "width": 64,
+         "bound": "every path of the two bodies (11 + 3), the loop of get_users_states executed at most once; callees are events",
+         "query_cap_s": 120, "cap_s": (600, 600), "stubs": [], "role": "user_state_wiring", "instantiation": None,
+         "assumes": ["HashMap semantics are std's", "Transaction::get_user_state / get_users_data (scans of the DashMap) are events: that they return the user's pending states sorted by epoch is not decided",
+                     "counterexamples are confirmed by native_bulk (which also compares get_user_state inside the transaction with the read after commit)"]},
         {"id": "C15.txn_log", "engine": "mir", "kind": "txn",
          "claim": "Transaction::begin_transaction succeeds exactly when no transaction is open; commit_transaction / rollback_transaction without an open transaction return Err and change nothing; "
                   "commit returns a clone of EVERY pending record exactly once, sorted by DbRecord::transaction_priority ascending (so, with C11.epoch_record_last, the epoch record last), "
